@@ -163,6 +163,11 @@ impl Server {
 
       let index_thread = thread::spawn(move || {
         loop {
+          #[cfg(feature = "verif")]
+          if crate::verif::skip_index_thread() {
+            break;
+          }
+
           if SHUTTING_DOWN.load(atomic::Ordering::Relaxed) {
             break;
           }
@@ -366,6 +371,11 @@ impl Server {
       } else {
         router
       };
+
+      #[cfg(feature = "verif")]
+      if crate::verif::router(&router) {
+        return Ok(None);
+      }
 
       match (self.http_port(), self.https_port()) {
         (Some(http_port), None) => {
